@@ -263,7 +263,7 @@ class ReqHarness:
             base += [f"m:{a}" for a in SINGLES]
             if self.pairs:
                 base += [f"m:{a}+{b}" for a, b in PAIRS]
-            base += ["m:DR", "eof"]
+            base += ["m:DR", "eof", "rst", "etimedout"]
             if not w.forced:
                 base.append("force")
         nt = w.loop.next_timer_at()
@@ -318,6 +318,14 @@ class ReqHarness:
         elif label == "eof":
             kind = "io"
             w.io_eof(w.sock)
+        elif label == "rst":
+            kind = "io"
+            w.io_rst(w.sock)
+        elif label == "etimedout":
+            # the kernel gave up retransmitting: recv() raises the builtin TimeoutError (the class asyncio.TimeoutError is an alias of)
+            kind = "io"
+            w.sock.inbox.append(TimeoutError(110, "Connection timed out"))
+            w.note("io_etimedout", w.sock.fd)
         elif label == "force":
             w.forced = True
             try:
@@ -470,10 +478,72 @@ def factory(seed: str) -> ReqHarness:
     return ReqHarness(seed)
 
 
+def class_sweep(res: Result) -> int:
+    """'...fails with the connection's error when the connection closes': for every close cause the outstanding calls end at that instant
+    with the same (non-timeout) connection error class whether or not a graceful disconnect happens to be pending, and leave no timer."""
+    from aioesphomeapi.core import APIConnectionError, TimeoutAPIError
+
+    n = 0
+    causes = ("eof", "rst", "etimedout", "garbage", "force", "undecodable")
+    for noise in (False, True):
+        for cause in causes:
+            classes: dict[str, dict[str, str]] = {}
+            for variant in ("plain", "disconnect-pending"):
+                key = f"class:{'noise' if noise else 'plain'}:{cause}:{variant}"
+                h = ReqHarness(("noise:" if noise else "") + "AB", nd=False)
+                w = h.fresh()
+                try:
+                    if variant == "disconnect-pending":
+                        w.spawn("disc", w.conn.disconnect)
+                        w.drain()
+                    t_close = w.loop.time()
+                    if cause in ("eof", "rst", "etimedout", "force"):
+                        h.apply(w, cause)
+                    elif cause == "garbage":
+                        w.chunks.append([])
+                        w.io_chunk(w.sock, b"\x7f\x7f\x7f garbage" if not noise else b"\x00\x00\x01x")
+                        w.drain()
+                    else:
+                        from ..world import msg_id as _mid
+                        from .c12 import raw_frame
+
+                        w.chunks.append([])
+                        w.io_chunk(w.sock, raw_frame(w, _mid("SensorStateResponse"), b"\xff\xff\xff"))
+                        w.drain()
+                    w.drain()
+                    n += 1
+                    d = {"harness": "c11-class", "key": key}
+                    cl: dict[str, str] = {}
+                    for name in ("A", "B"):
+                        r = w.results.get(name)
+                        if r is None:
+                            res.add(key, f"C11:closed:{name} still pending after the connection closed ({cause}, {variant})", d)
+                            continue
+                        kind, val, t = r
+                        cl[name] = type(val).__name__ if kind == "exc" else kind
+                        if kind != "exc" or not isinstance(val, APIConnectionError) or isinstance(val, TimeoutAPIError):
+                            res.add(key, f"C11:closed:{name} ended {w.outcome(name)} when the connection closed ({cause}, {variant}); its own "
+                                    "timeout was far away and no result had arrived", d)
+                        elif abs(t - t_close) > 1e-9:
+                            res.add(key, f"C11:closed:{name} failed at {t}, the connection closed at {t_close}", d)
+                    classes[variant] = cl
+                    live = [timer_name(x) for x in w.loop.live_timers()]
+                    if "handle_timeout" in live and w.conn.connection_state.name == "CLOSED":
+                        res.add(key + ":timer", f"C11:leftover-timer:request timers still armed after the close ({cause}, {variant}): {live}", d)
+                finally:
+                    h.close(w)
+            if len(classes) == 2 and classes["plain"] != classes["disconnect-pending"]:
+                key = f"class:{'noise' if noise else 'plain'}:{cause}:disconnect-pending"
+                res.add(key, f"C11:closed:with a graceful disconnect pending the outstanding calls end {classes['disconnect-pending']} when the connection "
+                        f"closes by {cause}; without it they end {classes['plain']} - the connection's error is the same in both", {"harness": "c11-class", "key": key})
+    return n
+
+
 def run(tier: str, seed: int) -> Result:
     res = Result("C11", "model_checking")
     total = Stats()
     q = tier == "quick"
+    n_class = class_sweep(res)
     cfgs = [("", 4 if q else 5, 1 if q else 2), ("A", 3 if q else 5, 2), ("B", 3 if q else 5, 2), ("AB", 3 if q else 4, 1 if q else 2),
             ("AC", 3 if q else 4, 2), ("ABC", 3 if q else 4, 1 if q else 2), ("BD", 3 if q else 4, 1 if q else 2),
             ("B.D", 3 if q else 4, 1 if q else 2), ("debug:AB", 3 if q else 4, 1 if q else 2), ("noise:AB", 3 if q else 4, 1 if q else 2), ("recycle:AB", 3 if q else 4, 1 if q else 2),
@@ -512,6 +582,7 @@ def run(tier: str, seed: int) -> Result:
         "traces_validated_against_impl": total.executions,
         "executions": total.executions,
         "endings_observed": sorted(ends),
+        "close_cause_class_runs": n_class,
         "distinct_outcomes": len(total.outcomes),
         "configs": per_cfg,
         "exhaustive": not total.time_capped,
@@ -528,6 +599,12 @@ def run(tier: str, seed: int) -> Result:
 
 def replay(rp: dict[str, Any]) -> bool:
     d = rp["detail"]
+    if d.get("harness") == "c11-class":
+        r = Result("C11", "model_checking")
+        class_sweep(r)
+        bad = [v for v in r.violations if v.key.startswith(d["key"])]
+        print(d["key"], "->", [v.clause for v in bad] or "holds")
+        return not bad
     from .. import world as _world
 
     _world.DEFAULT_DEBUG[0] = str(d["seed_calls"]).startswith("debug:")
